@@ -14,6 +14,8 @@ TEXT = {
          "lexer injection through the friend hook; harness term classes; reference regex semantics", "rapidcheck PBT, labelled-automata equivalence + reference tokeniser, three-way bug-model scope", "5/C04"),
  "C05": ("exploration", "Generated ambiguous grammars with random precedence/associativity/explicit rule precedence; the value of the real parse must equal the value of the tree obtained by the documented resolution on the reference table.",
          "same as C01; R/R grammars excluded (README: undefined)", "rapidcheck PBT, differential vs reference resolution", "5/C05"),
+ "C06": ("exploration", "Coverage-guided fuzzing of whole parsers and of the regex matcher on arbitrary bytes through four buffer kinds with sanitizers, a bounds monitor inside the library's fixed vectors and a checked user iterator; the differential across buffer kinds and a linear-progress bound are checked inside the target.",
+         "libFuzzer mutations reach the interesting inputs; termination only as absence of reproducible time-outs", "libFuzzer (coverage-guided) + ASan/UBSan + checked-iterator buffer + differential across buffer kinds", "5/C06"),
  "C08": ("exploration", "Generated grammars with error rules and inputs with injected errors; outcome, kept values and error messages must equal the README recovery algorithm run on the reference table.",
          "same as C01; recovery model written from README's five bullets", "rapidcheck PBT, reference recovery model", "5/C08"),
  "C09": ("exploration", "Generated conflict-free grammars and inputs (also lexically wrong); exactly one message of the right kind, position and term/byte, nothing on success, failure iff not in the language.",
